@@ -86,6 +86,7 @@ def run(tier):
     S.selftest(chk, "c02", tr, append_second, "second-message-after-the-request", "c02:pdu:")
     S.selftest(chk, "c02", tr, fake_timeout, "timeout-nobody-asked-for", "c02:")
     os.remove(tr)
+    chk.problems = S.collapse_ops(chk.problems)
     chk.assumptions += ["TLC and the CommunityModules Json reader are correct",
                         "spec/Ldap4511.tla transcribes the ASN.1 of RFC 4511 section 4 / appendix B and RFC 4525 correctly (13 hand-assembled "
                         "PDUs are ASSUMEd in MCLdap4511; DecodeRequest is written independently of Request and inverts it on the whole "
